@@ -1,5 +1,6 @@
 //! vcheck: property-based checks of sourcefrog/conserve (see /verif/DESIGN.md).
 
+mod damage;
 mod engine;
 mod format;
 mod history;
